@@ -3,6 +3,7 @@ package main
 import (
 	"strconv"
 	"strings"
+	"sync"
 
 	capnp "capnproto.org/go/capnp/v3"
 	"verifharness/lib"
@@ -219,8 +220,67 @@ func (w *walker) list(l capnp.List) {
 	}
 }
 
+// execConc: "read conc <T> <k> <n> <segs>": k goroutines dereference the root's pointer 0
+// n times each on one shared message; the bytes granted plus the remaining budget must not exceed T.
+func execConc(t []string) string {
+	if len(t) != 5 {
+		return "bad-op"
+	}
+	T, _ := strconv.ParseUint(t[1], 10, 64)
+	k, _ := strconv.Atoi(t[2])
+	n, _ := strconv.Atoi(t[3])
+	segs, ok := parseSegs(t[4])
+	if !ok {
+		return "bad-op"
+	}
+	msg := &capnp.Message{Arena: capnp.MultiSegment(segs), TraverseLimit: T}
+	root, err := msg.Root()
+	if err != nil || !root.Struct().IsValid() {
+		return "ok"
+	}
+	rs := root.Struct()
+	base := uint64(rs.Size().DataSize) + 8*uint64(rs.Size().PointerCount)
+	granted := make([]uint64, k)
+	var wg sync.WaitGroup
+	start := make(chan struct{})
+	for g := 0; g < k; g++ {
+		wg.Add(1)
+		go func(g int) {
+			defer wg.Done()
+			<-start
+			for i := 0; i < n; i++ {
+				p, err := rs.Ptr(uint16(i % 2))
+				if err == nil && p.Struct().IsValid() {
+					sz := p.Struct().Size()
+					granted[g] += uint64(sz.DataSize) + 8*uint64(sz.PointerCount)
+				} else if err == nil && p.List().IsValid() {
+					_, ds, pc := capnp.VerifListInfo(p.List())
+					e := uint64(ds) + 8*uint64(pc)
+					if e == 0 {
+						e = 8
+					}
+					granted[g] += e * uint64(p.List().Len())
+				}
+			}
+		}(g)
+	}
+	close(start)
+	wg.Wait()
+	total := base
+	for _, x := range granted {
+		total += x
+	}
+	if total+msg.VerifReadLimit() > T {
+		return "over granted=" + strconv.FormatUint(total, 10) + " rl=" + strconv.FormatUint(msg.VerifReadLimit(), 10)
+	}
+	return "ok"
+}
+
 // execRead: "read walk <T> <D> <segs>"
 func execRead(t []string) string {
+	if len(t) > 0 && t[0] == "conc" {
+		return execConc(t)
+	}
 	if len(t) != 4 || t[0] != "walk" {
 		return "bad-op"
 	}
